@@ -116,7 +116,7 @@ JsonNumber(s) ==
 (* the flag to FALSE to get the strict Draft-12 verdict back.  See         *)
 (* notes/C07-ubjson.md, SUSPECTED DEFECTS.                                 *)
 ExcludeKnownDefect1 == TRUE   \* 'H' payload that is not a JSON number is accepted (as a bigdec-tagged string)
-ExcludeKnownDefect2 == TRUE   \* [$][t][#] 0 with t not a type marker is accepted (as an empty container)
+ExcludeKnownDefect2 == FALSE  \* [$][t][#] 0 with t not a type marker is accepted (as an empty container)
 KnownDefect1(v) == v[1] = "hpn_malformed"
 KnownDefect2(v) == v[1] = "badtype_empty"
 
